@@ -3,6 +3,7 @@ pub mod c02;
 pub mod c03;
 pub mod c04;
 pub mod c05;
+pub mod c07;
 pub mod c12;
 pub mod c13;
 pub mod c20;
@@ -20,6 +21,7 @@ pub fn dispatch(args: &Args, rep: &mut Report) -> bool {
         "c05" => c05::run(args, rep),
         "c05tcp" => tcp::run(args, rep),
         "serve" => tcp::serve(args),
+        "c07" => c07::run(args, rep),
         "c12" => c12::run(args, rep),
         "c13" => c13::run(args, rep),
         "c20" => c20::run(args, rep),
